@@ -322,4 +322,125 @@ def r07_6(ctx, config="native"):
     ctx.ob("R07.6", "tail-weights", 100000000 in consts and 10000 in consts, fn.loc(), "scalar recombination uses 10^8 and 10^4")
 
 
-RULES = [("R07.1", r07_1), ("R07.3", r07_3), ("R07.4", r07_4), ("R07.5", r07_5), ("R07.6", r07_6)]
+def _cval(prog, fn, o, ty="f64"):
+    """signed value of a constant operand; generic RawFloat constants are taken for `ty`"""
+    if o["k"] != "const":
+        l = op_local(o)
+        if l is None:
+            return None
+        sc = fn.src(l)
+        if sc[0] != "const":
+            return None
+        o = sc[1]
+    if "int" in o:
+        bits = int(o.get("size", 4)) * 8
+        v = int(o["int"])
+        return signed(v, bits) if o.get("ty", "").startswith("i") else v
+    d = o.get("def", "")
+    if "RawFloat::" in d:
+        name = d.rsplit("::", 1)[-1]
+        c = prog.const(f"<{ty} as float::RawFloat>::{name}", required=False)
+        if c and "int" in c:
+            bits = int(c["size"]) * 8
+            return signed(int(c["int"]), bits) if c["ty"].startswith("i") else int(c["int"])
+    return None
+
+
+def _shortcuts(prog, fn, var_pred):
+    """comparisons `x op C` (x selected by var_pred) that guard a constant zero / infinity result.
+    yields (kind 'zero'|'inf', lower bound or None, upper bound or None, line): the set of x short-cut"""
+    out = []
+    # which locals hold the zero / infinity result
+    kinds = {}
+    for b, t in fn.calls():
+        if callee_is(t, "zero_pow2"):
+            a = t["args"][0]
+            v = _cval(prog, fn, a)
+            d = a.get("def", "") if a["k"] == "const" else ""
+            if v == 0:
+                kinds[t["dest"][0]] = "zero"
+            elif d.endswith("INFINITE_POWER") or (v is not None and v > 0):
+                kinds[t["dest"][0]] = "inf"
+    for b, i, s in fn.assigns():
+        rv = s["rv"]
+        if rv["k"] != "binop" or rv["op"] not in ("Lt", "Le", "Gt", "Ge"):
+            continue
+        for x, c, flip in ((rv["a"], rv["b"], False), (rv["b"], rv["a"], True)):
+            cv = _cval(prog, fn, c)
+            if cv is None or not var_pred(fn, x):
+                continue
+            op = rv["op"]
+            if flip:
+                op = {"Lt": "Gt", "Le": "Ge", "Gt": "Lt", "Ge": "Le"}[op]
+            e = bool_switch_edges(fn, s["lhs"][0])
+            if not e:
+                continue
+            t_t = e[0]
+            # what is returned right on the true edge (before any other test)
+            ret = None
+            for bb in sorted(fn.reachable_from(t_t, avoid={e[1]})):
+                for st in fn.blocks[bb]["stmts"]:
+                    if st["k"] == "assign" and st["lhs"] == [0, []] and st["rv"]["k"] == "use":
+                        l = op_local(st["rv"]["op"])
+                        sl = {l} | backward_slice(fn, [l])[0] if l is not None else set()
+                        for kl, kk in kinds.items():
+                            if kl in sl:
+                                ret = kk
+                if ret:
+                    break
+                if len(fn.succs(bb)) > 1:
+                    break
+            if ret is None:
+                continue
+            lo = hi = None
+            if op == "Lt":
+                hi = cv - 1
+            elif op == "Le":
+                hi = cv
+            elif op == "Gt":
+                lo = cv + 1
+            elif op == "Ge":
+                lo = cv
+            out.append((ret, lo, hi, s["ln"]))
+    return out
+
+
+def r07_7(ctx):
+    """short-circuits to 0 / infinity are taken only where the value really is 0 / infinite as f64:
+    a decimal 0.ddd x 10^dp is zero only for dp <= -324 and infinite only for dp >= 310; w x 10^q with
+    w < 2^64 is zero only for q <= -343 and infinite only for q >= 309"""
+    prog = ctx.prog()
+    f = prog.fns.get("sonic_number::slow::parse_long_mantissa")
+    g = prog.fns.get("sonic_number::lemire::compute_float")
+    if f is None or g is None:
+        ctx.fail_closed("R07.7", "parse_long_mantissa / compute_float")
+        return
+    def is_dp(fn, o):
+        p = op_place(o)
+        if p is None:
+            return False
+        names = [e[2] for e in p[1] if isinstance(e, list) and e[0] == "."]
+        if names and names[-1] == "decimal_point":
+            return True
+        if not p[1]:
+            sc = fn.src(p[0])
+            return sc[0] == "place" and [e[2] for e in sc[1][1] if isinstance(e, list) and e[0] == "."][-1:] == ["decimal_point"]
+        return False
+    def is_q(fn, o):
+        l = op_local(o)
+        return l is not None and fn.src(l) == ("param", 1)
+    lims = {"slow": (f, is_dp, -324, 310), "lemire": (g, is_q, -343, 309)}
+    for name, (fn, pred, zmax, imin) in lims.items():
+        sc = _shortcuts(prog, fn, pred)
+        zs = [x for x in sc if x[0] == "zero"]
+        inf = [x for x in sc if x[0] == "inf"]
+        ctx.ob("R07.7", f"{name}:shortcuts-found", bool(zs) and bool(inf), fn.loc(), f"{len(zs)} zero and {len(inf)} infinity short-circuit(s) on the decimal exponent", nontrivial=False)
+        for kind, lo, hi, ln in zs:
+            ok = hi is not None and hi <= zmax and lo is None
+            ctx.ob("R07.7", f"{name}:zero-shortcut@{hi}", ok, fn.loc(ln), f"result 0 is returned for exponent <= {hi}; mathematically safe for <= {zmax}" + ("" if ok else ": subnormal values are flushed to zero"))
+        for kind, lo, hi, ln in inf:
+            ok = lo is not None and lo >= imin and hi is None
+            ctx.ob("R07.7", f"{name}:inf-shortcut@{lo}", ok, fn.loc(ln), f"infinity is returned for exponent >= {lo}; mathematically safe for >= {imin}" + ("" if ok else ": finite values up to f64::MAX are reported as infinite (rejected)"))
+
+
+RULES = [("R07.1", r07_1), ("R07.3", r07_3), ("R07.4", r07_4), ("R07.5", r07_5), ("R07.6", r07_6), ("R07.7", r07_7)]
